@@ -33,11 +33,11 @@ def run(rep, tier):
         from harness import bptie
 
         bptie.run(rep, tier, common.rng(PID + "-bp"))
-        C01.run_tie(rep, tier, plan, PID + "-a", PID, "c02", options_list=OPTIONS, with_model=False)
+        C01.run_tie(rep, tier, plan, PID + "-a", PID, "c02", options_list=OPTIONS, with_model=False, corpus=True)
         C01.run_tie(rep, tier, [("symjump", 10 if tier == "quick" else 150)], PID + "-j", PID, "c02", options_list=[{"symbolic_jump": True}], with_model=False)
         # legal oracle behaviour: 30 % of definite solver answers become `unknown`
         half = [(p, max(2, n // 3)) for p, n in plan if p in ("branch", "loop", "storage", "call", "symtarget")] + [(p, n) for p, n in plan if p == "valuecall"]
-        C01.run_tie(rep, tier, half, PID + "-b", PID, "c02", options_list=[{}, {"loop": 3}], patch_unknown=0.3, with_model=False)
+        C01.run_tie(rep, tier, half, PID + "-b", PID, "c02", options_list=[{}, {"loop": 3}], patch_unknown=0.3, with_model=False, corpus=True)
     except RuntimeError as e:
         rep.obligation("extracted reference interpreter driver builds", False, str(e)[-600:])
         rep.fail("broken-tie", f"extracted drivers do not build: {str(e)[-400:]}", case={})
